@@ -507,7 +507,7 @@ class Engine:
                 yield ctx, self.schema.consts[key](self, ctx)
                 return
             cls = self.schema.classes.get(base.name)
-            if cls:
+            if cls and not cls[0].startswith('$'):
                 mod, cname = cls
                 found = source.find_method(mod, cname, attr)
                 if found:
@@ -974,32 +974,40 @@ class Engine:
             yield ctx, res
             return
         if h < 0:
-            # drop -h items from the end
-            need = -h
-            segs = list(res.segs)
-            while need and segs:
-                s = segs[-1]
-                if isinstance(s, Fixed):
-                    if len(s.items) <= need:
-                        need -= len(s.items)
-                        segs.pop()
-                    else:
-                        segs[-1] = Fixed(s.items[:-need])
-                        need = 0
-                else:
-                    if len(segs) != 1:
-                        raise Unsupported('negative slice end over several segments')
-                    ln = s.hi - s.lo
-                    k = z3.If(ln >= need, z3.IntVal(need), ln)
-                    segs[-1] = View(s.arr, s.lo, s.hi - k)
-                    need = 0
-            yield ctx, PySeq(segs, seq.kind)
+            yield from self._drop_back(ctx, list(res.segs), -h, seq.kind)
             return
         fl = res.fixed_len()
         if fl is not None:
             yield ctx, PySeq([Fixed(res.items()[:max(0, h - l)])], seq.kind)
             return
         raise Unsupported('positive slice end on symbolic sequence')
+
+    def _drop_back(self, ctx, segs, need, kind):
+        """drop `need` items from the end of a segment list (forks on the length of a trailing view)"""
+        if need == 0 or not segs:
+            yield ctx, PySeq(segs, kind)
+            return
+        s = segs[-1]
+        if isinstance(s, Fixed):
+            if len(s.items) <= need:
+                yield from self._drop_back(ctx, segs[:-1], need - len(s.items), kind)
+            else:
+                yield ctx, PySeq(segs[:-1] + [Fixed(s.items[:-need])], kind)
+            return
+        ln = s.hi - s.lo
+        for c, enough in self.branch(ctx, ln >= need):
+            if enough:
+                yield c, PySeq(segs[:-1] + [View(s.arr, s.lo, s.hi - need)], kind)
+                continue
+            def shorter(c, k):
+                if k == need:
+                    return
+                for c2, eq in self.branch(c, ln == k):
+                    if eq:
+                        yield from self._drop_back(c2, segs[:-1], need - k, kind)
+                    else:
+                        yield from shorter(c2, k + 1)
+            yield from shorter(c, 0)
 
     def ev_Lambda(self, e, ctx):
         yield ctx, Fn('closure', node=e, frame=ctx.fid, name='<lambda>')
